@@ -35,6 +35,9 @@ MIDS = [
     ("copy_three", "m(X,Y,Z) :- b(X,Y), b(Y,Z)."),
     ("copy_fun", "m(f(X),Y) :- b(X,Y)."),
     ("copy_dup_arg", "m(X,Y,X) :- b(X,Y)."),
+    # m and -m are linked by the implicit constraint `:- m(X,Y), -m(X,Y).`
+    ("copy_classneg", "m(X,Y) :- b(X,Y). -m(X,Y) :- db(Y,X)."),
+    ("classneg_two_defs", "m(X,Y) :- b(X,Y), db(X,_). -m(Y,X) :- b(X,Y), db(X,X)."),
 ]
 
 # consumers of m (or of b when MID is none): {M} is the atom with both positions, {MA} with the 2nd position anonymous
@@ -71,6 +74,8 @@ CONSUMERS = [
     ("neg_head_only", "not {M} :- db(X,Y), X < Y. c(X) :- db(X,_)."),
     ("edge", "c(X) :- db(X,_). #edge (X,Y) : {M}."),
     ("edge_anon", "c(X) :- db(X,_). #edge (X,X+1) : {MA}."),
+    ("classneg_body", "c(X) :- db(X,_). :- db(X,_), -{MA}."),
+    ("classneg_head", "c(X) :- db(X,_). -{M} :- db(Y,X), X < Y."),
     ("clash_names", "c(X0,Y0) :- {M0}, db(X0,_), db(Y0,_)."),
 ]
 
@@ -96,7 +101,7 @@ def jobs(tier: str):
             for mname, mtext in MIDS:
                 for cname, ctext in CONSUMERS:
                     if quick and pname not in ("input", "choice") and cname not in (
-                            "head_only", "anon_all", "constraint", "weak", "show_term", "bodyagg_tuple"):
+                            "head_only", "anon_all", "constraint", "weak", "show_term", "bodyagg_tuple", "classneg_body", "classneg_head"):
                         continue
                     if mname in ("copy_proj", "copy_proj2"):
                         if "{M}" in ctext or "{M2}" in ctext or "{MB}" in ctext or "{M0}" in ctext:
